@@ -269,12 +269,12 @@ func cmdReplay(args []string) int {
 	abs, _ := filepath.Abs(args[0])
 	line, full := runReplay(&rf, abs, ov, 1)
 	fmt.Println("native:", line)
+	if os.Getenv("VERIF_VERBOSE") != "" {
+		fmt.Println(full)
+	}
 	if confirms(&rf, line) {
 		fmt.Printf("VIOLATION property=%s replay=%s\n", rf.Property, abs)
 		return 1
-	}
-	if os.Getenv("VERIF_VERBOSE") != "" {
-		fmt.Println(full)
 	}
 	fmt.Println("not reproduced")
 	return 0
